@@ -11,20 +11,20 @@ import (
 
 // LexSpec selects lexer options (pure data, part of scenarios).
 type LexSpec struct {
-	Validate     bool `json:"validate,omitempty"`
-	EmitInvalid  bool `json:"emit_invalid,omitempty"`
-	EmitChunks   bool `json:"emit_chunks,omitempty"`
-	AttachCB     bool `json:"attach_cb,omitempty"`
-	ComputeCRC   bool `json:"compute_crc,omitempty"`
-	NoDrain      bool `json:"no_drain,omitempty"` // callback does not read Data()
-	SkipMagic    bool `json:"skip_magic,omitempty"`
-	Custom       bool `json:"custom,omitempty"` // install the sim decompressors
-	MaxRecord    int  `json:"max_record,omitempty"`
-	MaxChunk     int  `json:"max_chunk,omitempty"`
-	ReuseBuf     bool `json:"reuse_buf,omitempty"` // pass a reused buffer to Next instead of nil
-	DrainChunk   int  `json:"drain_chunk,omitempty"`
-	MaxTokens    int  `json:"max_tokens,omitempty"`
-	NoOpts       bool `json:"no_opts,omitempty"` // call NewLexer(r) with no options at all
+	Validate    bool `json:"validate,omitempty"`
+	EmitInvalid bool `json:"emit_invalid,omitempty"`
+	EmitChunks  bool `json:"emit_chunks,omitempty"`
+	AttachCB    bool `json:"attach_cb,omitempty"`
+	ComputeCRC  bool `json:"compute_crc,omitempty"`
+	NoDrain     bool `json:"no_drain,omitempty"` // callback does not read Data()
+	SkipMagic   bool `json:"skip_magic,omitempty"`
+	Custom      bool `json:"custom,omitempty"` // install the sim decompressors
+	MaxRecord   int  `json:"max_record,omitempty"`
+	MaxChunk    int  `json:"max_chunk,omitempty"`
+	ReuseBuf    bool `json:"reuse_buf,omitempty"` // pass a reused buffer to Next instead of nil
+	DrainChunk  int  `json:"drain_chunk,omitempty"`
+	MaxTokens   int  `json:"max_tokens,omitempty"`
+	NoOpts      bool `json:"no_opts,omitempty"` // call NewLexer(r) with no options at all
 }
 
 func (s LexSpec) Options(cb func(*mcap.AttachmentReader) error) *mcap.LexerOptions {
@@ -59,7 +59,9 @@ type LexResult struct {
 	Tokens  int
 }
 
-func (r *LexResult) CleanEOF() bool { return r.Panic == nil && r.NewErr == nil && errors.Is(r.Err, io.EOF) }
+func (r *LexResult) CleanEOF() bool {
+	return r.Panic == nil && r.NewErr == nil && errors.Is(r.Err, io.EOF)
+}
 
 // Terminal is a short classification of how the read ended.
 func (r *LexResult) Terminal() string {
@@ -125,7 +127,7 @@ func LexAll(src io.Reader, spec LexSpec) *LexResult {
 	var lexer *mcap.Lexer
 	var keep []retained
 	cb := func(ar *mcap.AttachmentReader) error {
-		rec := &model.Rec{Kind: "attachment", LogTime: ar.LogTime, PubTime: ar.CreateTime, Name: ar.Name, Enc: ar.MediaType}
+		rec := &model.Rec{Kind: "attachment", LogTime: ar.LogTime, PubTime: ar.CreateTime, Name: ar.Name, Enc: ar.MediaType, DeclSize: ar.DataSize, HasSize: true}
 		res.Recs = append(res.Recs, rec)
 		if spec.NoDrain {
 			rec.Kind = "attachment_undrained"
@@ -150,6 +152,7 @@ func LexAll(src io.Reader, spec LexSpec) *LexResult {
 		}
 		rec.Data = data
 		if err != nil {
+			rec.Kind = "attachment_partial"
 			return err
 		}
 		if uint64(len(data)) != ar.DataSize {
@@ -279,19 +282,19 @@ func LexAll(src io.Reader, spec LexSpec) *LexResult {
 
 // ReadSpec selects Reader.Messages options (pure data).
 type ReadSpec struct {
-	UseIndex bool     `json:"use_index"`
-	Order    int      `json:"order,omitempty"` // 0 file, 1 log time, 2 reverse
-	Topics   []string `json:"topics,omitempty"`
-	HasTopics bool    `json:"has_topics,omitempty"` // pass WithTopics even when the list is empty
+	UseIndex  bool     `json:"use_index"`
+	Order     int      `json:"order,omitempty"` // 0 file, 1 log time, 2 reverse
+	Topics    []string `json:"topics,omitempty"`
+	HasTopics bool     `json:"has_topics,omitempty"` // pass WithTopics even when the list is empty
 	// window
-	Window   string `json:"window,omitempty"` // "", "nanos", "nanos_rev" (Before first), "deprecated", "deprecated_rev", "start_only", "end_only"
-	Start    uint64 `json:"start,omitempty"`
-	End      uint64 `json:"end,omitempty"`
-	MetaCB   bool   `json:"meta_cb,omitempty"`
-	NextMode string `json:"next_mode,omitempty"` // "into_nil" (default), "next_nil", "into_reuse", "next_buf"
-	OmitUsingIndex bool `json:"omit_using_index,omitempty"` // rely on the default (index on)
-	OrderFirst bool `json:"order_first,omitempty"`
-	MaxMsgs  int    `json:"max_msgs,omitempty"`
+	Window         string `json:"window,omitempty"` // "", "nanos", "nanos_rev" (Before first), "deprecated", "deprecated_rev", "start_only", "end_only"
+	Start          uint64 `json:"start,omitempty"`
+	End            uint64 `json:"end,omitempty"`
+	MetaCB         bool   `json:"meta_cb,omitempty"`
+	NextMode       string `json:"next_mode,omitempty"`        // "into_nil" (default), "next_nil", "into_reuse", "next_buf"
+	OmitUsingIndex bool   `json:"omit_using_index,omitempty"` // rely on the default (index on)
+	OrderFirst     bool   `json:"order_first,omitempty"`
+	MaxMsgs        int    `json:"max_msgs,omitempty"`
 }
 
 // IterResult is what a message read returned.
